@@ -47,7 +47,7 @@ impl Prop for C07 {
         let world = install();
         let progs = Programs::new(level(tier));
         for i in a..b {
-            out.idx = Some(i);
+            out.at(i);
             let ast = &progs.get(i);
             let text = print_program(ast, &world);
             let key = shape_key(ast, &world.ops);
